@@ -121,6 +121,17 @@ func (p *Program) desc(v ssa.Value, fr *Frame, d int) string {
 		}
 		return "call:" + name + "(" + strings.Join(args, ",") + ")"
 	case *ssa.Extract:
+		if call, ok := x.Tuple.(*ssa.Call); ok {
+			if f := StaticFn(call); f != nil {
+				rs := f.Signature.Results()
+				// plain tuple accessors (no error result): look through to what they return
+				if rs.Len() > 1 && rs.At(rs.Len()-1).Type().String() != "error" {
+					if v, sub := p.inlineResult(call, x.Index, fr); v != nil {
+						return p.desc(v, sub, d+1)
+					}
+				}
+			}
+		}
 		return fmt.Sprintf("%s#%d", p.desc(x.Tuple, fr, d+1), x.Index)
 	case *ssa.Phi:
 		var es []string
@@ -182,21 +193,28 @@ var noInline = map[string]bool{
 // provenance descriptors and guard relations see through helper extraction.
 func (p *Program) inlineTarget(x *ssa.Call, fr *Frame) (ssa.Value, *Frame) {
 	f := StaticFn(x)
-	if f == nil || !p.IsHelios(f) || f.Blocks == nil || f.Parent() != nil || noInline[f.Name()] || strings.HasPrefix(f.Name(), "validate") {
+	if f == nil || f.Signature.Results().Len() != 1 {
 		return nil, nil
 	}
-	if f.Signature.Results().Len() != 1 {
+	return p.inlineResult(x, 0, fr)
+}
+
+// inlineResult: result idx of a call to a small Helios helper with a single return statement,
+// described in the helper's own frame (results spilled around a deferred unlock are looked through).
+func (p *Program) inlineResult(x *ssa.Call, idx int, fr *Frame) (ssa.Value, *Frame) {
+	f := StaticFn(x)
+	if f == nil || !p.IsHelios(f) || f.Blocks == nil || f.Parent() != nil || noInline[f.Name()] || strings.HasPrefix(f.Name(), "validate") {
 		return nil, nil
 	}
 	var ret *ssa.Return
 	n := 0
 	instrsOf(f, func(in ssa.Instruction) {
-		if r, ok := in.(*ssa.Return); ok {
+		if r, ok := in.(*ssa.Return); ok && !(f.Recover != nil && r.Block() == f.Recover) {
 			ret = r
 			n++
 		}
 	})
-	if n != 1 || len(ret.Results) != 1 {
+	if n != 1 || idx >= len(ret.Results) {
 		return nil, nil
 	}
 	sub := &Frame{Fn: f, Site: x, Parent: fr, Args: x.Call.Args}
@@ -206,7 +224,7 @@ func (p *Program) inlineTarget(x *ssa.Call, fr *Frame) (ssa.Value, *Frame) {
 	if sub.Depth > 6 {
 		return nil, nil
 	}
-	return ret.Results[0], sub
+	return singleStore(ret.Results[idx]), sub
 }
 
 // cellDesc describes the contents of a local variable cell: the single value stored into it, or
@@ -420,6 +438,17 @@ func (p *Program) RelOf(cond ssa.Value, pol bool, fr *Frame) Rel {
 				}
 			}
 			return r
+		}
+	case *ssa.Extract:
+		if call, ok := c.Tuple.(*ssa.Call); ok {
+			if f := StaticFn(call); f != nil {
+				rs := f.Signature.Results()
+				if rs.Len() > 1 && rs.At(rs.Len()-1).Type().String() != "error" {
+					if v, sub := p.inlineResult(call, c.Index, fr); v != nil {
+						return p.RelOf(v, pol, sub)
+					}
+				}
+			}
 		}
 	case *ssa.Call:
 		if v, sub := p.inlineTarget(c, fr); v != nil {
